@@ -37,7 +37,8 @@ THEOREMS = ['C11_inverse_den', 'C11_inverse_complcell_rejects',
             'C11_parse_psem', 'C11_accepted_iff',
             'C11_nested_rejected', 'C11_psem_is_sem',
             'C11_parse_sound', 'C11_lex_sound', 'C11_get_ast_sound',
-            'C11_split_card', 'C11_card_geometry',
+            'C11_split_card', 'C11_card_geometry', 'C11_split_full',
+            'C11_split_full_like_linked',
             'C11_get_ast_accepts_iff',
             'C11_handover_no_complement', 'C11_handover_loop',
             'C11_deck_end_to_end',
@@ -67,8 +68,9 @@ ASSUMPTIONS = [
     'MParen nodes of the expression',
     'complement of a lattice cell: the code returns an empty intersection; '
     'tied and proved empty, not compared with MCNP',
-    'cell cards (split): no LIKE n BUT; material numbers written as digit '
-    'strings (float() of anything else is outside the model); in the theorem '
+    'cell cards (split): LIKE n BUT cards through C15.Model.split_like '
+    '(linked); material field read as a decimal number without exponent '
+    '(float() of 1e3, inf, nan, 1_0 is outside the model); in the theorem '
     'the density consists of digits, signs and "." (no E exponent letter) and '
     'the expression is separated from it by a blank; the regexes of '
     'cellcard.py are read as greedy scans',
@@ -1390,6 +1392,22 @@ def run_split(res, rng, texts):
                           f'implementation gives {got}',
                           {'input': {'card': card}, 'expected': want,
                            'observed': got}, found_input=True)
+    # LIKE n BUT cards (the branch modelled by C15.Model.split_like) and
+    # material fields that are not digit strings
+    for i in range(40 if len(texts) <= 300 else 400):
+        name = str(rng.randint(1, 999))
+        like = rng.choice(['like', 'LIKE', 'Like', 'liKE'])
+        but = rng.choice(['but', 'BUT', 'But'])
+        rest = rng.choice(['', ' imp:n=0', ' u=2 trcl=(1 0 0)', ' mat=3 rho=-2.7',
+                           ' imp:n=1 $ but not this', ' BUT u=3', ' *trcl=(0 0 1)'])
+        gap = ' ' * rng.choice((1, 1, 2))
+        tie(f'{name}{gap}{like} {rng.randint(1, 99)} {but}{rest}')
+        if i % 5 == 0:
+            tie(f'{name} {like} {rng.randint(1, 99)}')          # no BUT
+            tie(f'{name} {like}')                              # two fields
+        mat = rng.choice(['0.0', '0.', '.0', '-0', '+0', '1.5', '-3', '007',
+                          '3.', 'abc', '1..2', '-', '+.', '0x1'])
+        tie(f'{name} {mat} -1.0 {rng.randint(1, 9)} -{rng.randint(1, 9)} imp:n=1')
     for text in texts:
         if not text.strip():
             continue
